@@ -21,6 +21,10 @@ func init() {
 		Assumptions: []string{"Alloc.index >= 0 marks exactly the cells chosen for lifting in this round"},
 		Run:         runC01,
 		Mutants: []Mutant{
+			{Name: "closure-stops-at-marked-blocks", File: "go/ir/lift.go", Rule: "R1.4", KeyPart: "cut-only-at-visited-blocks",
+				Old: "\t\tif seen[b.Index] {\n\t\t\treturn\n\t\t}\n\t\tseen[b.Index] = true\n\t\tdesc := &blocks[b.Index]\n", New: "\t\tdesc := &blocks[b.Index]\n\t\tif desc.isUnliftable {\n\t\t\treturn\n\t\t}\n\t\tseen[b.Index] = true\n"},
+			{Name: "closure-skips-last-successor", File: "go/ir/lift.go", Rule: "R1.4", KeyPart: "every-successor-visited",
+				Old: "\t\tdesc.storeInPreds = true\n\t\tfor _, succ := range b.Succs {\n\t\t\tdfs(succ)\n\t\t}\n", New: "\t\tdesc.storeInPreds = true\n\t\tfor i, succ := range b.Succs {\n\t\t\tif i > 0 && succ == b {\n\t\t\t\tcontinue\n\t\t\t}\n\t\t\tdfs(succ)\n\t\t}\n"},
 			{Name: "fieldaddr-treated-as-liftable", File: "go/ir/lift.go", Rule: "R1.2", KeyPart: "liftable",
 				Old: "\t\tcase *Load:\n\t\tcase *DebugRef:\n\t\tcase *Phi:\n\t\t\tinHead = true\n\t\t\thasUnliftable = true\n", New: "\t\tcase *Load:\n\t\tcase *DebugRef:\n\t\tcase *FieldAddr:\n\t\tcase *Phi:\n\t\t\tinHead = true\n\t\t\thasUnliftable = true\n"},
 			{Name: "store-of-address-is-liftable", File: "go/ir/lift.go", Rule: "R1.2", KeyPart: "liftable",
@@ -314,5 +318,186 @@ func runC01(c *Ctx) {
 		if n < 4 {
 			c.Undecided("rename has only %d deletion sites (expected Alloc, Store, Load, DebugRef)", n)
 		}
+	})
+	// R1.4: the "everything reachable from an escaping use is unliftable"
+	// closure in liftable. The traversal may cut a path short only at blocks it
+	// has itself visited before: its early-return guard has to read state that
+	// nothing but the traversal writes. A guard on the block's unliftable mark
+	// (which the preceding pass also sets for blocks with an escaping use of
+	// their own) stops at exactly those blocks and leaves their successors —
+	// e.g. the loop body on the next iteration — partially lifted.
+	c.Rule("R1.4", func() {
+		c.Floor("R1.4", 3)
+		lf := c.Func("go/ir", "liftable")
+		// access path of an address: root cell + field names (indices and derefs ignored)
+		var path func(v ssa.Value) (ssa.Value, string)
+		path = func(v ssa.Value) (ssa.Value, string) {
+			switch v := v.(type) {
+			case *ssa.FieldAddr:
+				r, p := path(v.X)
+				_, f := FieldOf(v.X.Type(), v.Field)
+				if f != nil {
+					p += "." + f.Name()
+				}
+				return r, p
+			case *ssa.IndexAddr:
+				return path(v.X)
+			case *ssa.UnOp:
+				return path(v.X)
+			case *ssa.FreeVar:
+				fn := v.Parent()
+				for i, fv := range fn.FreeVars {
+					if fv == v && fn.Parent() != nil {
+						for _, b := range fn.Parent().Blocks {
+							for _, in := range b.Instrs {
+								if mc, ok := in.(*ssa.MakeClosure); ok && mc.Fn == fn && i < len(mc.Bindings) {
+									return path(mc.Bindings[i])
+								}
+							}
+						}
+					}
+				}
+			}
+			return v, ""
+		}
+		// the traversal: the closure of liftable that ranges over b.Succs and calls itself
+		var dfs *ssa.Function
+		var succsLoad ssa.Instruction
+		for _, an := range lf.AnonFuncs {
+			var sl ssa.Instruction
+			rec := false
+			Instrs(an, false, func(in ssa.Instruction) {
+				if fa, ok := in.(*ssa.FieldAddr); ok && IsFieldOf("ir.BasicBlock", "Succs")(fa) && sl == nil {
+					sl = fa
+				}
+				if call, ok := in.(*ssa.Call); ok && call.Call.StaticCallee() == nil && !call.Call.IsInvoke() {
+					if r, _ := path(call.Call.Value); r != nil {
+						// the callee is loaded from the cell the closure itself is stored in
+						for _, b := range lf.Blocks {
+							for _, x := range b.Instrs {
+								if st, ok := x.(*ssa.Store); ok && st.Addr == r {
+									if mc, ok := st.Val.(*ssa.MakeClosure); ok && mc.Fn == an {
+										rec = true
+									}
+								}
+							}
+						}
+					}
+				}
+			})
+			if sl != nil && rec {
+				dfs, succsLoad = an, sl
+			}
+		}
+		if dfs == nil {
+			c.Undecided("the recursive traversal over BasicBlock.Succs in liftable was not found")
+		}
+		isRet := func(in ssa.Instruction) bool { _, ok := in.(*ssa.Return); return ok }
+		// all stores in liftable and its closures, by access path
+		type site struct {
+			fn  *ssa.Function
+			pos ssa.Instruction
+		}
+		writes := map[ssa.Value]map[string][]site{}
+		for _, fn := range append([]*ssa.Function{lf}, lf.AnonFuncs...) {
+			Instrs(fn, false, func(in ssa.Instruction) {
+				st, ok := in.(*ssa.Store)
+				if !ok {
+					return
+				}
+				if _, direct := st.Addr.(*ssa.Alloc); direct {
+					return // (re)binding the variable itself, e.g. its initialisation
+				}
+				if _, direct := st.Addr.(*ssa.FreeVar); direct {
+					return
+				}
+				r, p := path(st.Addr)
+				if writes[r] == nil {
+					writes[r] = map[string][]site{}
+				}
+				writes[r][p] = append(writes[r][p], site{fn, st})
+			})
+		}
+		// early-exit guards of the traversal
+		nGuards := 0
+		for _, b := range dfs.Blocks {
+			iff, ok := b.Instrs[len(b.Instrs)-1].(*ssa.If)
+			if !ok || !b.Dominates(succsLoad.Block()) && b != succsLoad.Block() {
+				continue
+			}
+			early := false
+			for _, sc := range b.Succs {
+				t, _ := PathAvoiding(dfs, sc.Instrs[0], isRet, func(in ssa.Instruction) bool { return in == succsLoad }, nil)
+				if (t != nil || isRet(sc.Instrs[0])) && !sc.Dominates(succsLoad.Block()) {
+					early = true
+				}
+			}
+			if !early {
+				continue
+			}
+			nGuards++
+			// what the guard reads
+			private, what := true, ""
+			reads := 0
+			for x := range BackSlice(iff.Cond, SliceOpts{NoMemory: true}) {
+				u, ok := x.(*ssa.UnOp)
+				if !ok || u.Op.String() != "*" {
+					continue
+				}
+				if _, isParam := u.X.(*ssa.FieldAddr); isParam {
+					if r, _ := path(u.X); r != nil {
+						if _, fromParam := r.(*ssa.Parameter); fromParam {
+							continue // a field of the visited block itself (its index)
+						}
+					}
+				}
+				r, p := path(u.X)
+				if _, isCell := r.(*ssa.Alloc); !isCell {
+					continue
+				}
+				if _, direct := u.X.(*ssa.FreeVar); direct {
+					continue // loading the captured variable (the container value), not its contents
+				}
+				reads++
+				for _, w := range writes[r][p] {
+					if w.fn != dfs {
+						private = false
+						nm := r.Name()
+						if al, ok := r.(*ssa.Alloc); ok && al.Comment != "" {
+							nm = al.Comment
+						}
+						what = "it reads " + nm + p + ", which is also written at " + c.PosStr(w.pos.Pos()) + " (outside the traversal)"
+					}
+				}
+			}
+			c.Check(FuncKey(lf)+"::unliftable-closure::cut-only-at-visited-blocks#"+itoa(nGuards-1), dfs.Pos(), private && reads > 0, "the traversal that demotes every block reachable from an escaping use may return early only on state that it alone writes (a visited set): %s", what)
+		}
+		if nGuards == 0 {
+			c.Undecided("the traversal in liftable has no early-exit guard (it would not terminate on loops)")
+		}
+		// on every other path, the block is demoted and all successors are visited
+		var demote ssa.Instruction
+		Instrs(dfs, false, func(in ssa.Instruction) {
+			if st, ok := in.(*ssa.Store); ok && IsFieldOf("ir.blockDesc", "isUnliftable")(st.Addr) && isBoolConst(st.Val, true) {
+				demote = st
+			}
+		})
+		c.Check(FuncKey(lf)+"::unliftable-closure::visited-block-is-demoted", dfs.Pos(), demote != nil && InstrDominates(demote, succsLoad) || demote != nil && demote.Block() == succsLoad.Block(), "every block the traversal visits is marked entirely unliftable before its successors are visited")
+		var rec ssa.Instruction
+		Instrs(dfs, false, func(in ssa.Instruction) {
+			if call, ok := in.(*ssa.Call); ok && call.Call.StaticCallee() == nil && !call.Call.IsInvoke() && len(call.Call.Args) == 1 && Derives(call.Call.Args[0], func(v ssa.Value) bool { return v == ssa.Value(succsLoad.(*ssa.FieldAddr)) }) {
+				rec = call
+			}
+		})
+		okRec := rec != nil
+		pathStr := ""
+		if okRec {
+			// per iteration over Succs the recursive call is unconditional
+			elemLoad := rec.(*ssa.Call).Call.Args[0].(ssa.Instruction)
+			t, pth := PathAvoiding(dfs, elemLoad, func(in ssa.Instruction) bool { return isRet(in) || in == elemLoad }, func(in ssa.Instruction) bool { return in == rec }, nil)
+			okRec = t == nil
+			pathStr = PathString(dfs, pth)
+		}
+		c.Check(FuncKey(lf)+"::unliftable-closure::every-successor-visited", dfs.Pos(), okRec, "the traversal recurses into every successor of a visited block; %s", pathStr)
 	})
 }
